@@ -264,10 +264,12 @@ class C09(F.PropCheck):
             elif k == 'SET':
                 # a run that starts with the carry of an earlier run in the same direction still stored (outputs switched off and on
                 # again between two callbacks, impossible through set_relay because of the 1 s start delay) is not "t ms from a known position"
+                # Switching to the direction that is already energised is not a run boundary: the motor keeps running, the run
+                # (its start values, elapsed time, largest/smallest interval) continues.
                 if a[0] != d:
                     if a[0] == 2: blocked = (last_carry[0] != 0)
                     elif a[0] == 1: blocked = (last_carry[1] != 0)
-                d = a[0]; seg = None
+                    d = a[0]; seg = None
             elif k == 'POKE':
                 pos, tilt = a[0], a[1]; seg = None; blocked = True    # the carry of the running motor is not a run "from a known position"
                 if not state_ok(pos, tilt): wf = False
